@@ -468,7 +468,8 @@ def gen_cases(rng, tier, n_modules):
 
 
 CORPUS = [
-    # the two kernel-checked counterexamples of Props/C16.lean and the nested-optional syntax error
+    # regression inputs: the fixed findings required-optional-default (K) and nested-optional syntax error (N),
+    # and the kernel-checked counterexample of Props/C16.lean (P/Q, inherited-additional-properties)
     {"suite": "stub", "apd": True, "dflt": True, "seeds": [1], "mod": {"items": [
         {"kind": "struct", "name": "K", "style": "annot", "bases": [{"b": "Structure"}],
          "fields": [{"name": "e", "ty": ["AnyOf", ["Integer"], ["None"]]}, {"name": "s", "ty": ["String"]}]}]}},
